@@ -869,7 +869,7 @@ def extern_args(unit, log=None):
     externs = unit.get('externs', [])
     if not externs:
         return [], []
-    crate_dir = os.path.join(CACHE, 'vx-externs')
+    crate_dir = os.path.join(CACHE, 'vx-externs' if REPO == '/repo' else 'vx-externs-scratch')
     os.makedirs(os.path.join(crate_dir, 'src'), exist_ok=True)
     cargo = ('[package]\nname = "vx_externs"\nversion = "0.0.0"\nedition = "2021"\n[workspace]\n[dependencies]\n'
              'cddl = { path = "%s" }\n'
@@ -880,7 +880,7 @@ def extern_args(unit, log=None):
     lock_src = os.path.join(REPO, 'Cargo.lock')
     if os.path.exists(lock_src) and not os.path.exists(os.path.join(crate_dir, 'Cargo.lock')):
         shutil.copy(lock_src, os.path.join(crate_dir, 'Cargo.lock'))
-    env = dict(os.environ, CARGO_NET_OFFLINE='true', CARGO_TARGET_DIR=os.path.join(CACHE, 'vx-target'),
+    env = dict(os.environ, CARGO_NET_OFFLINE='true', CARGO_TARGET_DIR=os.path.join(CACHE, 'vx-target' if REPO == '/repo' else 'vx-target-scratch'),
                RUSTUP_TOOLCHAIN='1.98.1-x86_64-unknown-linux-gnu', RUSTFLAGS='--cap-lints allow')
     env.pop('RUSTC_WRAPPER', None)
     t0 = time.time()
@@ -899,7 +899,7 @@ def extern_args(unit, log=None):
             for fpath in m.get('filenames', []):
                 if fpath.endswith('.rlib'):
                     paths[nm] = fpath
-    deps = os.path.join(CACHE, 'vx-target', 'debug', 'deps')
+    deps = os.path.join(CACHE, 'vx-target' if REPO == '/repo' else 'vx-target-scratch', 'debug', 'deps')
     args = ['-L', 'dependency=' + deps]
     for e in externs:
         if e not in paths:
@@ -1064,7 +1064,7 @@ def verify_unit(unit_name, tier='quick', keep=None, mutate_text=None):
     text, linemap = assemble(unit_dir, ex)
     if mutate_text:
         text = mutate_text(text)
-    gen_dir = os.path.join(CACHE, 'gen')
+    gen_dir = os.path.join(CACHE, 'gen' if REPO == '/repo' else 'gen-scratch')
     os.makedirs(gen_dir, exist_ok=True)
     gen_path = os.path.join(gen_dir, '%s.rs' % unit_name)
     with open(gen_path, 'w') as f:
